@@ -53,6 +53,22 @@ pub enum DV {
 // ------------------------------------------------------------------------------------------
 // Serialize
 
+thread_local! {
+    static UNKNOWN_LEN: std::cell::Cell<bool> = const { std::cell::Cell::new(false) };
+}
+/// While `f` runs, `S` announces no length for sequences and maps (`serialize_seq(None)` /
+/// `serialize_map(None)`), the way `collect_seq` over a filtering iterator or a hand-written
+/// impl does.
+pub fn with_unknown_len<R>(f: impl FnOnce() -> R) -> R {
+    UNKNOWN_LEN.with(|c| c.set(true));
+    let r = f();
+    UNKNOWN_LEN.with(|c| c.set(false));
+    r
+}
+fn len_hint(n: usize) -> Option<usize> {
+    if UNKNOWN_LEN.with(|c| c.get()) { None } else { Some(n) }
+}
+
 pub struct S<'a>(pub &'a Ty, pub &'a DV);
 impl<'a> Serialize for S<'a> {
     fn serialize<Z: Serializer>(&self, s: Z) -> Result<Z::Ok, Z::Error> {
@@ -64,7 +80,7 @@ impl<'a> Serialize for S<'a> {
             (Ty::Opt(_), DV::None) => s.serialize_none(),
             (Ty::Opt(t), DV::Some(v)) => s.serialize_some(&S(t, v)),
             (Ty::Seq(t), DV::Seq(v)) => {
-                let mut q = s.serialize_seq(Some(v.len()))?;
+                let mut q = s.serialize_seq(len_hint(v.len()))?;
                 for x in v {
                     q.serialize_element(&S(t, x))?;
                 }
@@ -86,7 +102,7 @@ impl<'a> Serialize for S<'a> {
             }
             (Ty::NT(t), DV::NT(v)) => s.serialize_newtype_struct("Nt", &S(t, v)),
             (Ty::Map(kt, vt), DV::Map(es)) => {
-                let mut m = s.serialize_map(Some(es.len()))?;
+                let mut m = s.serialize_map(len_hint(es.len()))?;
                 for (k, v) in es {
                     m.serialize_entry(&S(kt, k), &S(vt, v))?;
                 }
